@@ -213,6 +213,7 @@ class LiteDRAMDMAWriter(Module, AutoCSR):
             self.comb += wdata.we.eq(2**(port.data_width//8)-1)
         if is_axi:
             self.comb += wdata.strb.eq(2**(port.data_width//8)-1)
+            self.comb += wdata.last.eq(1) # Single beat bursts (aw.len = 0): every beat is the last one.
         self.comb += [
             wdata.valid.eq(fifo.source.valid),
             fifo.source.ready.eq(wdata.ready),
